@@ -95,6 +95,9 @@ func (fr *Frame) call(in ssa.Value, cc *ssa.CallCommon, st *State) Val {
 					return wrap(fr.staticCall(m, nil, append([]Val{sp}, args...), st, pos))
 				}
 			}
+			if c.locMode {
+				return wrap(fr.locInvoke(iv, rt, cc.Method, args, st, pos))
+			}
 			fr.causalRead(cc, args, st, pos)
 			return wrap(fr.ndInvoke(iv, rt, cc.Method, args, st, pos))
 		}
@@ -151,10 +154,10 @@ func (fr *Frame) ufCallHook(fv FuncV, args []Val, st *State, pos token.Pos) {
 
 func (fr *Frame) staticCall(callee *ssa.Function, free []Val, args []Val, st *State, pos token.Pos) []Val {
 	c := fr.c
-	if fr.fc != nil && fr.top {
-		for _, cl := range fr.fc.Clauses {
+	if c.fc != nil && (fr.top || c.locMode) && c.specMode == 0 {
+		for _, cl := range c.fc.Clauses {
 			if cl.Kind == "callsite" && cl.Callee == callee.Name() {
-				env := &Env{c: c, fr: fr, st: st, old: fr.old, names: fr.env0, oldNames: fr.env0, bound: map[string]Val{}}
+				env := &Env{c: c, fr: fr, st: st, old: fr.old, names: fr.env0, oldNames: fr.env0, bound: map[string]Val{}, blk: fr.curBlock, atLatch: true}
 				for i, a := range args {
 					env.bound[fmt.Sprintf("arg%d", i)] = a
 				}
@@ -184,6 +187,16 @@ func (fr *Frame) staticCall(callee *ssa.Function, free []Val, args []Val, st *St
 	case "errors":
 		if name == "New" {
 			return []Val{ErrV{tFalse}}
+		}
+	}
+	if c.locMode {
+		if kfc := c.contractOf(callee); kfc != nil && kfc.Kernel {
+			return fr.locKernelCall(callee, kfc, args, st, pos)
+		}
+		if pkgPath == modulePrefix+"/data" {
+			if out, ok := fr.locConstructor(callee, args, st); ok {
+				return out
+			}
 		}
 	}
 	if c.fc != nil && c.fc.Variant != "" {
